@@ -14,7 +14,8 @@ PROPS["C09"] = {
                   "encoded length = predicted size, the signed/hashed bytes survive, the encoder is injective — for all values, not samples. The model is tied to the code "
                   "by running both on the same bytes (all formats and all 15 message tags) and diffing re-encoded bytes and field dumps.",
     "level_note": "Formats whose round-trip theorem is not yet proved are covered by the correspondence run only; the evidence lists the theorems.",
-    "lean_modules": ["Saito.Props.C09"],
+    "lean_modules": ["Saito.Props.C09", "Saito.Props.C09Gen"],
+    "uses_gen": True,
     "suites": ["codec"],
     # a disagreement matters for C09 when a value is involved on either side
     "relevant": lambda op, a, b: cls(a) == "ok" or cls(b) == "ok",
@@ -32,7 +33,8 @@ PROPS["C10"] = {
                   "a panic implies membership in a precisely delimited input class (the known findings). The model's outcome class is compared with the real decoder on "
                   "systematic truncations and length-field corruptions of every format; allocation is measured directly.",
     "level_note": "On the pinned tree four decoders do panic (known_findings.json); the check passes with KNOWN-FINDING lines and reports any panic outside the listed classes.",
-    "lean_modules": ["Saito.Props.C10"],
+    "lean_modules": ["Saito.Props.C10", "Saito.Props.C09Gen"],
+    "uses_gen": True,
     "suites": ["codec"],
     "relevant": lambda op, a, b: cls(a) != cls(b),
     "nontrivial": lambda op, a: cls(a) != "ok",
